@@ -288,6 +288,13 @@ def units_B(tier):
             U.must_fail_twin(r, "vacuity.must_fail_twin", lambda: _only_z3(unit_safe_copy(f, twin=True)))
             return r
         us.append(("C08.safe_copy." + f, mk))
+    from props import c08_streams as ST
+    def mks():
+        r = ST.unit_stream_cleanup()
+        if not any(o.status == core.FAILED for o in r.obligations):
+            U.must_fail_twin(r, "vacuity.must_fail_twin", lambda: ST.unit_stream_cleanup(twin=True))
+        return r
+    us.append(("C08.entry_points.no_input_stream_left_behind", mks))
     return us
 
 
